@@ -106,13 +106,20 @@ def ordinal_obs(run, rule):
     duror = ix.cls(DU, "Duror")
     for name in ("addIoVal", "putIoVals", "addIoSetVal", "putIoSetVals"):
         f = ix.method(duror, name)
-        upd = [n for n in walk_local(f.node) if isinstance(n, (ast.Assign, ast.AugAssign)) and dotted(n.targets[0] if isinstance(n, ast.Assign) else n.target) == "ion"
+        # the ordinal local is whichever name is passed as the ordinal of self.suffix(key, <ordinal>, ...)
+        ionvars = {c.args[1].id for c in walk_local(f.node) if isinstance(c, ast.Call) and method_call(c) == ("self", "suffix")
+                   and len(c.args) >= 2 and isinstance(c.args[1], ast.Name)}
+        upd = [n for n in walk_local(f.node) if isinstance(n, (ast.Assign, ast.AugAssign)) and dotted(n.targets[0] if isinstance(n, ast.Assign) else n.target) in ionvars
                and any(isinstance(p_, (ast.For, ast.While)) for p_ in _anc(n))]
         ok = bool(upd)
         txt = None
+        ordvars = {u.targets[0].elts[1].id for u in walk_local(f.node) if isinstance(u, ast.Assign) and isinstance(u.value, ast.Call)
+                   and method_call(u.value) == ("self", "unsuffix") and isinstance(u.targets[0], ast.Tuple) and len(u.targets[0].elts) == 2
+                   and isinstance(u.targets[0].elts[1], ast.Name)}
         for n in upd:
             txt = unparse(n)
-            ok = ok and isinstance(n, ast.Assign) and same(linform(n.value), {"cion": 1, 1: 1})
+            lf = linform(n.value) if isinstance(n, ast.Assign) else None
+            ok = ok and lf is not None and lf.get(1) == 1 and len(lf) == 2 and (set(lf) - {1}) <= ordvars
         run.ob(rule, "%s:next-ordinal-is-last-plus-one" % f.fq, ok, run.site(f, upd[0]) if upd else run.site(f),
                "" if ok else "%s computes the next ordinal with `%s`; once a key's ordinals no longer start at 0 (after a pop / remove) anything but "
                "`last ordinal + 1` lands on an ordinal that is still occupied and overwrites or loses a stored value" % (name, txt))
